@@ -134,6 +134,7 @@ fn main() {
         "broadcast" => broadcast::run(seed, count, &extra, &mut out),
         "io" => io::run(seed, count, &extra, &mut out),
         "rtc" => rtc::run(seed, count, &extra, &mut out),
+        "rtc_cancel" => rtc::run_cancel(seed, count, &extra, &mut out),
         _ => {
             eprintln!("unknown component {comp}");
             std::process::exit(2);
